@@ -2684,11 +2684,10 @@ fn eval_built_in_call(
                 arg_values,
             )?;
 
-            let mut saved_values = vec![];
+            let mut saved_values = vec![receiver_value.clone()];
             for value in arg_values.iter().rev() {
                 saved_values.push(value.clone());
             }
-            saved_values.push(receiver_value.clone());
 
             let s = check_string(&arg_values[0], &arg_positions[0], saved_values, env)?;
             match &session.stdout_stderr_mode {
@@ -2733,11 +2732,10 @@ fn eval_built_in_call(
                 arg_values,
             )?;
 
-            let mut saved_values = vec![];
+            let mut saved_values = vec![receiver_value.clone()];
             for value in arg_values.iter().rev() {
                 saved_values.push(value.clone());
             }
-            saved_values.push(receiver_value.clone());
 
             let s = check_string(&arg_values[0], &arg_positions[0], saved_values, env)?;
             match &session.stdout_stderr_mode {
@@ -2784,11 +2782,10 @@ fn eval_built_in_call(
                 arg_values,
             )?;
 
-            let mut saved_values = vec![];
+            let mut saved_values = vec![receiver_value.clone()];
             for value in arg_values.iter().rev() {
                 saved_values.push(value.clone());
             }
-            saved_values.push(receiver_value.clone());
 
             let s = check_string(&arg_values[0], &arg_positions[0], saved_values, env)?;
             match &session.stdout_stderr_mode {
@@ -2832,11 +2829,10 @@ fn eval_built_in_call(
                 arg_values,
             )?;
 
-            let mut saved_values = vec![];
+            let mut saved_values = vec![receiver_value.clone()];
             for value in arg_values.iter().rev() {
                 saved_values.push(value.clone());
             }
-            saved_values.push(receiver_value.clone());
 
             let s = check_string(&arg_values[0], &arg_positions[0], saved_values, env)?;
             match &session.stdout_stderr_mode {
@@ -2873,11 +2869,10 @@ fn eval_built_in_call(
         }
         BuiltInFunctionKind::PreludeReadLine => {
             if env.enforce_sandbox {
-                let mut saved_values = vec![];
+                let mut saved_values = vec![receiver_value.clone()];
                 for value in arg_values.iter().rev() {
                     saved_values.push(value.clone());
                 }
-                saved_values.push(receiver_value.clone());
 
                 return Err((
                     RestoreValues(saved_values),
@@ -2920,11 +2915,10 @@ fn eval_built_in_call(
         }
         BuiltInFunctionKind::ShellRun => {
             if env.enforce_sandbox {
-                let mut saved_values = vec![];
+                let mut saved_values = vec![receiver_value.clone()];
                 for value in arg_values.iter().rev() {
                     saved_values.push(value.clone());
                 }
-                saved_values.push(receiver_value.clone());
 
                 return Err((
                     RestoreValues(saved_values),
@@ -2943,11 +2937,10 @@ fn eval_built_in_call(
                 arg_values,
             )?;
 
-            let mut saved_values = vec![];
+            let mut saved_values = vec![receiver_value.clone()];
             for value in arg_values.iter().rev() {
                 saved_values.push(value.clone());
             }
-            saved_values.push(receiver_value.clone());
 
             let s = check_string(&arg_values[0], &arg_positions[0], saved_values, env)?;
             match as_string_list(&arg_values[1]) {
@@ -2988,11 +2981,10 @@ fn eval_built_in_call(
                     }
                 }
                 Err(v) => {
-                    let mut saved_values = vec![];
+                    let mut saved_values = vec![receiver_value.clone()];
                     for value in arg_values.iter().rev() {
                         saved_values.push(value.clone());
                     }
-                    saved_values.push(receiver_value.clone());
 
                     let message = format_type_error(
                         &TypeName {
@@ -3100,11 +3092,10 @@ fn eval_built_in_call(
                 ..
             } = arg_values[0].as_ref()
             else {
-                let mut saved_values = vec![];
+                let mut saved_values = vec![receiver_value.clone()];
                 for value in arg_values.iter().rev() {
                     saved_values.push(value.clone());
                 }
-                saved_values.push(receiver_value.clone());
 
                 let message = format_type_error(
                     &TypeName {
@@ -3156,11 +3147,10 @@ fn eval_built_in_call(
                 arg_values,
             )?;
 
-            let mut saved_values = vec![];
+            let mut saved_values = vec![receiver_value.clone()];
             for value in arg_values.iter().rev() {
                 saved_values.push(value.clone());
             }
-            saved_values.push(receiver_value.clone());
 
             let type_name = check_string(&arg_values[0], &arg_positions[0], saved_values, env)?;
 
@@ -3187,11 +3177,10 @@ fn eval_built_in_call(
         }
         BuiltInFunctionKind::FsListDirectory => {
             if env.enforce_sandbox {
-                let mut saved_values = vec![];
+                let mut saved_values = vec![receiver_value.clone()];
                 for value in arg_values.iter().rev() {
                     saved_values.push(value.clone());
                 }
-                saved_values.push(receiver_value.clone());
 
                 return Err((
                     RestoreValues(saved_values),
@@ -3213,10 +3202,9 @@ fn eval_built_in_call(
             let path_s = match unwrap_path(&arg_values[0], env) {
                 Ok(s) => s,
                 Err(msg) => {
-                    let mut saved_values = vec![];
+                    let mut saved_values = vec![receiver_value.clone()];
                     for value in arg_values.iter().rev() {
                         saved_values.push(value.clone());
-                        saved_values.push(receiver_value.clone());
                     }
                     return Err((
                         RestoreValues(saved_values),
@@ -3320,11 +3308,10 @@ fn eval_built_in_call(
                 arg_values,
             )?;
 
-            let mut saved_values = vec![];
+            let mut saved_values = vec![receiver_value.clone()];
             for value in arg_values.iter().rev() {
                 saved_values.push(value.clone());
             }
-            saved_values.push(receiver_value.clone());
 
             let env_var_name = check_string(&arg_values[0], &arg_positions[0], saved_values, env)?;
 
@@ -3396,10 +3383,9 @@ fn eval_built_in_call(
             let path_s = match unwrap_path(&arg_values[0], env) {
                 Ok(s) => s,
                 Err(msg) => {
-                    let mut saved_values = vec![];
+                    let mut saved_values = vec![receiver_value.clone()];
                     for value in arg_values.iter().rev() {
                         saved_values.push(value.clone());
-                        saved_values.push(receiver_value.clone());
                     }
                     return Err((
                         RestoreValues(saved_values),
@@ -3440,11 +3426,10 @@ fn eval_built_in_call(
         }
         BuiltInFunctionKind::FsWriteFile => {
             if env.enforce_sandbox {
-                let mut saved_values = vec![];
+                let mut saved_values = vec![receiver_value.clone()];
                 for value in arg_values.iter().rev() {
                     saved_values.push(value.clone());
                 }
-                saved_values.push(receiver_value.clone());
 
                 return Err((
                     RestoreValues(saved_values),
@@ -3463,21 +3448,19 @@ fn eval_built_in_call(
                 arg_values,
             )?;
 
-            let mut saved_values = vec![];
+            let mut saved_values = vec![receiver_value.clone()];
             for value in arg_values.iter().rev() {
                 saved_values.push(value.clone());
             }
-            saved_values.push(receiver_value.clone());
 
             let content_s = check_string(&arg_values[0], &arg_positions[0], saved_values, env)?;
 
             let path_s = match unwrap_path(&arg_values[1], env) {
                 Ok(s) => s,
                 Err(msg) => {
-                    let mut saved_values = vec![];
+                    let mut saved_values = vec![receiver_value.clone()];
                     for value in arg_values.iter().rev() {
                         saved_values.push(value.clone());
-                        saved_values.push(receiver_value.clone());
                     }
                     return Err((
                         RestoreValues(saved_values),
@@ -3510,11 +3493,10 @@ fn eval_built_in_call(
         }
         BuiltInFunctionKind::FsWriteBytes => {
             if env.enforce_sandbox {
-                let mut saved_values = vec![];
+                let mut saved_values = vec![receiver_value.clone()];
                 for value in arg_values.iter().rev() {
                     saved_values.push(value.clone());
                 }
-                saved_values.push(receiver_value.clone());
 
                 return Err((
                     RestoreValues(saved_values),
@@ -3536,11 +3518,10 @@ fn eval_built_in_call(
             let items = match arg_values[0].as_ref() {
                 Value_::List { items, .. } => items.clone(),
                 _ => {
-                    let mut saved_values = vec![];
+                    let mut saved_values = vec![receiver_value.clone()];
                     for value in arg_values.iter().rev() {
                         saved_values.push(value.clone());
                     }
-                    saved_values.push(receiver_value.clone());
 
                     return Err((
                         RestoreValues(saved_values),
@@ -3563,11 +3544,10 @@ fn eval_built_in_call(
                 let i = match item.as_ref() {
                     Value_::Int(i) => *i,
                     _ => {
-                        let mut saved_values = vec![];
+                        let mut saved_values = vec![receiver_value.clone()];
                         for value in arg_values.iter().rev() {
                             saved_values.push(value.clone());
                         }
-                        saved_values.push(receiver_value.clone());
 
                         return Err((
                             RestoreValues(saved_values),
@@ -3584,11 +3564,10 @@ fn eval_built_in_call(
                 };
 
                 if !(0..=255).contains(&i) {
-                    let mut saved_values = vec![];
+                    let mut saved_values = vec![receiver_value.clone()];
                     for value in arg_values.iter().rev() {
                         saved_values.push(value.clone());
                     }
-                    saved_values.push(receiver_value.clone());
 
                     return Err((
                         RestoreValues(saved_values),
@@ -3606,19 +3585,17 @@ fn eval_built_in_call(
                 bytes.push(i as u8);
             }
 
-            let mut saved_values = vec![];
+            let mut saved_values = vec![receiver_value.clone()];
             for value in arg_values.iter().rev() {
                 saved_values.push(value.clone());
             }
-            saved_values.push(receiver_value.clone());
 
             let path_s = match unwrap_path(&arg_values[1], env) {
                 Ok(s) => s,
                 Err(msg) => {
-                    let mut saved_values = vec![];
+                    let mut saved_values = vec![receiver_value.clone()];
                     for value in arg_values.iter().rev() {
                         saved_values.push(value.clone());
-                        saved_values.push(receiver_value.clone());
                     }
                     return Err((
                         RestoreValues(saved_values),
@@ -3651,11 +3628,10 @@ fn eval_built_in_call(
         }
         BuiltInFunctionKind::FsCreateDir => {
             if env.enforce_sandbox {
-                let mut saved_values = vec![];
+                let mut saved_values = vec![receiver_value.clone()];
                 for value in arg_values.iter().rev() {
                     saved_values.push(value.clone());
                 }
-                saved_values.push(receiver_value.clone());
 
                 return Err((
                     RestoreValues(saved_values),
@@ -3677,10 +3653,9 @@ fn eval_built_in_call(
             let path_s = match unwrap_path(&arg_values[0], env) {
                 Ok(s) => s,
                 Err(message) => {
-                    let mut saved_values = vec![];
+                    let mut saved_values = vec![receiver_value.clone()];
                     for value in arg_values.iter().rev() {
                         saved_values.push(value.clone());
-                        saved_values.push(receiver_value.clone());
                     }
                     return Err((
                         RestoreValues(saved_values),
@@ -3712,11 +3687,10 @@ fn eval_built_in_call(
         }
         BuiltInFunctionKind::FsRemoveDir => {
             if env.enforce_sandbox {
-                let mut saved_values = vec![];
+                let mut saved_values = vec![receiver_value.clone()];
                 for value in arg_values.iter().rev() {
                     saved_values.push(value.clone());
                 }
-                saved_values.push(receiver_value.clone());
 
                 return Err((
                     RestoreValues(saved_values),
@@ -3738,10 +3712,9 @@ fn eval_built_in_call(
             let path_s = match unwrap_path(&arg_values[0], env) {
                 Ok(s) => s,
                 Err(message) => {
-                    let mut saved_values = vec![];
+                    let mut saved_values = vec![receiver_value.clone()];
                     for value in arg_values.iter().rev() {
                         saved_values.push(value.clone());
-                        saved_values.push(receiver_value.clone());
                     }
                     return Err((
                         RestoreValues(saved_values),
@@ -3773,11 +3746,10 @@ fn eval_built_in_call(
         }
         BuiltInFunctionKind::FsCopyFile => {
             if env.enforce_sandbox {
-                let mut saved_values = vec![];
+                let mut saved_values = vec![receiver_value.clone()];
                 for value in arg_values.iter().rev() {
                     saved_values.push(value.clone());
                 }
-                saved_values.push(receiver_value.clone());
 
                 return Err((
                     RestoreValues(saved_values),
@@ -3799,10 +3771,9 @@ fn eval_built_in_call(
             let src_path_s = match unwrap_path(&arg_values[0], env) {
                 Ok(s) => s,
                 Err(msg) => {
-                    let mut saved_values = vec![];
+                    let mut saved_values = vec![receiver_value.clone()];
                     for value in arg_values.iter().rev() {
                         saved_values.push(value.clone());
-                        saved_values.push(receiver_value.clone());
                     }
                     return Err((
                         RestoreValues(saved_values),
@@ -3817,10 +3788,9 @@ fn eval_built_in_call(
             let dest_path_s = match unwrap_path(&arg_values[1], env) {
                 Ok(s) => s,
                 Err(msg) => {
-                    let mut saved_values = vec![];
+                    let mut saved_values = vec![receiver_value.clone()];
                     for value in arg_values.iter().rev() {
                         saved_values.push(value.clone());
-                        saved_values.push(receiver_value.clone());
                     }
                     return Err((
                         RestoreValues(saved_values),
@@ -3858,11 +3828,10 @@ fn eval_built_in_call(
         }
         BuiltInFunctionKind::FsReadFile => {
             if env.enforce_sandbox {
-                let mut saved_values = vec![];
+                let mut saved_values = vec![receiver_value.clone()];
                 for value in arg_values.iter().rev() {
                     saved_values.push(value.clone());
                 }
-                saved_values.push(receiver_value.clone());
 
                 return Err((
                     RestoreValues(saved_values),
@@ -3884,10 +3853,9 @@ fn eval_built_in_call(
             let path_s = match unwrap_path(&arg_values[0], env) {
                 Ok(s) => s,
                 Err(msg) => {
-                    let mut saved_values = vec![];
+                    let mut saved_values = vec![receiver_value.clone()];
                     for value in arg_values.iter().rev() {
                         saved_values.push(value.clone());
-                        saved_values.push(receiver_value.clone());
                     }
                     return Err((
                         RestoreValues(saved_values),
@@ -3933,11 +3901,10 @@ fn eval_built_in_call(
         }
         BuiltInFunctionKind::FsReadFileBytes => {
             if env.enforce_sandbox {
-                let mut saved_values = vec![];
+                let mut saved_values = vec![receiver_value.clone()];
                 for value in arg_values.iter().rev() {
                     saved_values.push(value.clone());
                 }
-                saved_values.push(receiver_value.clone());
 
                 return Err((
                     RestoreValues(saved_values),
@@ -3959,10 +3926,9 @@ fn eval_built_in_call(
             let path_s = match unwrap_path(&arg_values[0], env) {
                 Ok(s) => s,
                 Err(msg) => {
-                    let mut saved_values = vec![];
+                    let mut saved_values = vec![receiver_value.clone()];
                     for value in arg_values.iter().rev() {
                         saved_values.push(value.clone());
-                        saved_values.push(receiver_value.clone());
                     }
                     return Err((
                         RestoreValues(saved_values),
@@ -4017,11 +3983,10 @@ fn eval_built_in_call(
         }
         BuiltInFunctionKind::FsRemoveFile => {
             if env.enforce_sandbox {
-                let mut saved_values = vec![];
+                let mut saved_values = vec![receiver_value.clone()];
                 for value in arg_values.iter().rev() {
                     saved_values.push(value.clone());
                 }
-                saved_values.push(receiver_value.clone());
 
                 return Err((
                     RestoreValues(saved_values),
@@ -4043,10 +4008,9 @@ fn eval_built_in_call(
             let path_s = match unwrap_path(&arg_values[0], env) {
                 Ok(s) => s,
                 Err(msg) => {
-                    let mut saved_values = vec![];
+                    let mut saved_values = vec![receiver_value.clone()];
                     for value in arg_values.iter().rev() {
                         saved_values.push(value.clone());
-                        saved_values.push(receiver_value.clone());
                     }
                     return Err((
                         RestoreValues(saved_values),
@@ -4315,11 +4279,10 @@ fn eval_built_in_call(
             )?;
 
             let Value_::Namespace { ns_info, .. } = arg_values[0].as_ref() else {
-                let mut saved_values = vec![];
+                let mut saved_values = vec![receiver_value.clone()];
                 for value in arg_values.iter().rev() {
                     saved_values.push(value.clone());
                 }
-                saved_values.push(receiver_value.clone());
 
                 let message = format_type_error(
                     &TypeName {
@@ -4819,11 +4782,10 @@ fn eval_call(
             }
         }
         _ => {
-            let mut saved_values = vec![];
+            let mut saved_values = vec![receiver_value.clone()];
             for value in arg_values.iter().rev() {
                 saved_values.push(value.clone());
             }
-            saved_values.push(receiver_value.clone());
 
             let message = format_type_error(
                 &TypeName {
@@ -5265,11 +5227,10 @@ fn eval_built_in_method_call(
                 arg_values,
             )?;
 
-            let mut saved_values = vec![];
+            let mut saved_values = vec![receiver_value.clone()];
             for value in arg_values.iter().rev() {
                 saved_values.push(value.clone());
             }
-            saved_values.push(receiver_value.clone());
 
             let expected_key =
                 check_string(&arg_values[0], &arg_positions[0], saved_values.clone(), env)?;
@@ -5343,11 +5304,10 @@ fn eval_built_in_method_call(
                     }
                 }
                 _ => {
-                    let mut saved_values = vec![];
+                    let mut saved_values = vec![receiver_value.clone()];
                     for value in arg_values.iter().rev() {
                         saved_values.push(value.clone());
                     }
-                    saved_values.push(receiver_value.clone());
 
                     return Err((
                         RestoreValues(saved_values),
@@ -5377,11 +5337,10 @@ fn eval_built_in_method_call(
                 arg_values,
             )?;
 
-            let mut saved_values = vec![];
+            let mut saved_values = vec![receiver_value.clone()];
             for value in arg_values.iter().rev() {
                 saved_values.push(value.clone());
             }
-            saved_values.push(receiver_value.clone());
 
             let key_to_remove =
                 check_string(&arg_values[0], &arg_positions[0], saved_values.clone(), env)?;
@@ -5426,11 +5385,10 @@ fn eval_built_in_method_call(
                 arg_values,
             )?;
 
-            let mut saved_values = vec![];
+            let mut saved_values = vec![receiver_value.clone()];
             for value in arg_values.iter().rev() {
                 saved_values.push(value.clone());
             }
-            saved_values.push(receiver_value.clone());
 
             let key_to_insert =
                 check_string(&arg_values[0], &arg_positions[0], saved_values.clone(), env)?;
@@ -5484,11 +5442,10 @@ fn eval_built_in_method_call(
                     }
                 }
                 _ => {
-                    let mut saved_values = vec![];
+                    let mut saved_values = vec![receiver_value.clone()];
                     for value in arg_values.iter().rev() {
                         saved_values.push(value.clone());
                     }
-                    saved_values.push(receiver_value.clone());
 
                     return Err((
                         RestoreValues(saved_values),
@@ -5525,11 +5482,10 @@ fn eval_built_in_method_call(
                     }
                 }
                 _ => {
-                    let mut saved_values = vec![];
+                    let mut saved_values = vec![receiver_value.clone()];
                     for value in arg_values.iter().rev() {
                         saved_values.push(value.clone());
                     }
-                    saved_values.push(receiver_value.clone());
 
                     return Err((
                         RestoreValues(saved_values),
@@ -5566,11 +5522,10 @@ fn eval_built_in_method_call(
                     }
                 }
                 _ => {
-                    let mut saved_values = vec![];
+                    let mut saved_values = vec![receiver_value.clone()];
                     for value in arg_values.iter().rev() {
                         saved_values.push(value.clone());
                     }
-                    saved_values.push(receiver_value.clone());
 
                     return Err((
                         RestoreValues(saved_values),
@@ -5614,11 +5569,10 @@ fn eval_built_in_method_call(
                     }
                 }
                 _ => {
-                    let mut saved_values = vec![];
+                    let mut saved_values = vec![receiver_value.clone()];
                     for value in arg_values.iter().rev() {
                         saved_values.push(value.clone());
                     }
-                    saved_values.push(receiver_value.clone());
 
                     return Err((
                         RestoreValues(saved_values),
@@ -5664,11 +5618,10 @@ fn eval_built_in_method_call(
                     }
                 }
                 _ => {
-                    let mut saved_values = vec![];
+                    let mut saved_values = vec![receiver_value.clone()];
                     for value in arg_values.iter().rev() {
                         saved_values.push(value.clone());
                     }
-                    saved_values.push(receiver_value.clone());
 
                     return Err((
                         RestoreValues(saved_values),
@@ -5711,11 +5664,10 @@ fn eval_built_in_method_call(
                     }
                 }
                 (_, Value_::Int(_)) => {
-                    let mut saved_values = vec![];
+                    let mut saved_values = vec![receiver_value.clone()];
                     for value in arg_values.iter().rev() {
                         saved_values.push(value.clone());
                     }
-                    saved_values.push(receiver_value.clone());
 
                     return Err((
                         RestoreValues(saved_values),
@@ -5732,11 +5684,10 @@ fn eval_built_in_method_call(
                     ));
                 }
                 (_, _) => {
-                    let mut saved_values = vec![];
+                    let mut saved_values = vec![receiver_value.clone()];
                     for value in arg_values.iter().rev() {
                         saved_values.push(value.clone());
                     }
-                    saved_values.push(receiver_value.clone());
 
                     return Err((
                         RestoreValues(saved_values),
@@ -5771,11 +5722,10 @@ fn eval_built_in_method_call(
                     }
                 }
                 _ => {
-                    let mut saved_values = vec![];
+                    let mut saved_values = vec![receiver_value.clone()];
                     for value in arg_values.iter().rev() {
                         saved_values.push(value.clone());
                     }
-                    saved_values.push(receiver_value.clone());
 
                     return Err((
                         RestoreValues(saved_values),
@@ -5808,11 +5758,10 @@ fn eval_built_in_method_call(
             let (items, elem_type) = match receiver_value.as_ref() {
                 Value_::List { items, elem_type } => (items, elem_type),
                 _ => {
-                    let mut saved_values = vec![];
+                    let mut saved_values = vec![receiver_value.clone()];
                     for value in arg_values.iter().rev() {
                         saved_values.push(value.clone());
                     }
-                    saved_values.push(receiver_value.clone());
 
                     return Err((
                         RestoreValues(saved_values),
@@ -5833,11 +5782,10 @@ fn eval_built_in_method_call(
             let i_arg = match arg_values[0].as_ref() {
                 Value_::Int(i) => *i,
                 _ => {
-                    let mut saved_values = vec![];
+                    let mut saved_values = vec![receiver_value.clone()];
                     for value in arg_values.iter().rev() {
                         saved_values.push(value.clone());
                     }
-                    saved_values.push(receiver_value.clone());
 
                     return Err((
                         RestoreValues(saved_values),
@@ -5855,11 +5803,10 @@ fn eval_built_in_method_call(
             let j_arg = match arg_values[1].as_ref() {
                 Value_::Int(j) => *j,
                 _ => {
-                    let mut saved_values = vec![];
+                    let mut saved_values = vec![receiver_value.clone()];
                     for value in arg_values.iter().rev() {
                         saved_values.push(value.clone());
                     }
-                    saved_values.push(receiver_value.clone());
 
                     return Err((
                         RestoreValues(saved_values),
@@ -5897,11 +5844,10 @@ fn eval_built_in_method_call(
         }
         BuiltInMethodKind::PathExists => {
             if env.enforce_sandbox {
-                let mut saved_values = vec![];
+                let mut saved_values = vec![receiver_value.clone()];
                 for value in arg_values.iter().rev() {
                     saved_values.push(value.clone());
                 }
-                saved_values.push(receiver_value.clone());
 
                 return Err((
                     RestoreValues(saved_values),
@@ -5923,10 +5869,9 @@ fn eval_built_in_method_call(
             let path_s = match unwrap_path(receiver_value, env) {
                 Ok(s) => s,
                 Err(msg) => {
-                    let mut saved_values = vec![];
+                    let mut saved_values = vec![receiver_value.clone()];
                     for value in arg_values.iter().rev() {
                         saved_values.push(value.clone());
-                        saved_values.push(receiver_value.clone());
                     }
                     return Err((
                         RestoreValues(saved_values),
@@ -5950,11 +5895,10 @@ fn eval_built_in_method_call(
         }
         BuiltInMethodKind::PathInfo => {
             if env.enforce_sandbox {
-                let mut saved_values = vec![];
+                let mut saved_values = vec![receiver_value.clone()];
                 for value in arg_values.iter().rev() {
                     saved_values.push(value.clone());
                 }
-                saved_values.push(receiver_value.clone());
 
                 return Err((
                     RestoreValues(saved_values),
@@ -5976,10 +5920,9 @@ fn eval_built_in_method_call(
             let path_s = match unwrap_path(receiver_value, env) {
                 Ok(s) => s,
                 Err(msg) => {
-                    let mut saved_values = vec![];
+                    let mut saved_values = vec![receiver_value.clone()];
                     for value in arg_values.iter().rev() {
                         saved_values.push(value.clone());
-                        saved_values.push(receiver_value.clone());
                     }
                     return Err((
                         RestoreValues(saved_values),
@@ -6068,11 +6011,10 @@ fn eval_built_in_method_call(
                 arg_values,
             )?;
 
-            let mut saved_values = vec![];
+            let mut saved_values = vec![receiver_value.clone()];
             for value in arg_values.iter().rev() {
                 saved_values.push(value.clone());
             }
-            saved_values.push(receiver_value.clone());
 
             let s = check_string(receiver_value, receiver_pos, saved_values, env)?;
             let value = match s.parse::<i64>() {
@@ -6096,11 +6038,10 @@ fn eval_built_in_method_call(
                 arg_values,
             )?;
 
-            let mut saved_values = vec![];
+            let mut saved_values = vec![receiver_value.clone()];
             for value in arg_values.iter().rev() {
                 saved_values.push(value.clone());
             }
-            saved_values.push(receiver_value.clone());
 
             let s = check_string(receiver_value, receiver_pos, saved_values, env)?;
             let mut items = rpds::Vector::new();
@@ -6128,11 +6069,10 @@ fn eval_built_in_method_call(
                 arg_values,
             )?;
 
-            let mut saved_values = vec![];
+            let mut saved_values = vec![receiver_value.clone()];
             for value in arg_values.iter().rev() {
                 saved_values.push(value.clone());
             }
-            saved_values.push(receiver_value.clone());
 
             let receiver_s = check_string(receiver_value, receiver_pos, saved_values.clone(), env)?;
             let arg_s = check_string(&arg_values[0], &arg_positions[0], saved_values, env)?;
@@ -6163,11 +6103,10 @@ fn eval_built_in_method_call(
                 arg_values,
             )?;
 
-            let mut saved_values = vec![];
+            let mut saved_values = vec![receiver_value.clone()];
             for value in arg_values.iter().rev() {
                 saved_values.push(value.clone());
             }
-            saved_values.push(receiver_value.clone());
 
             let receiver_s = check_string(receiver_value, receiver_pos, saved_values.clone(), env)?;
             let arg_s = check_string(&arg_values[0], &arg_positions[0], saved_values, env)?;
@@ -6189,11 +6128,10 @@ fn eval_built_in_method_call(
                 arg_values,
             )?;
 
-            let mut saved_values = vec![];
+            let mut saved_values = vec![receiver_value.clone()];
             for value in arg_values.iter().rev() {
                 saved_values.push(value.clone());
             }
-            saved_values.push(receiver_value.clone());
 
             let receiver_s = check_string(receiver_value, receiver_pos, saved_values.clone(), env)?;
             let arg_s = check_string(&arg_values[0], &arg_positions[0], saved_values, env)?;
@@ -6215,11 +6153,10 @@ fn eval_built_in_method_call(
                 arg_values,
             )?;
 
-            let mut saved_values = vec![];
+            let mut saved_values = vec![receiver_value.clone()];
             for value in arg_values.iter().rev() {
                 saved_values.push(value.clone());
             }
-            saved_values.push(receiver_value.clone());
 
             let receiver_s = check_string(receiver_value, receiver_pos, saved_values.clone(), env)?;
 
@@ -6276,11 +6213,10 @@ fn eval_built_in_method_call(
                 arg_values,
             )?;
 
-            let mut saved_values = vec![];
+            let mut saved_values = vec![receiver_value.clone()];
             for value in arg_values.iter().rev() {
                 saved_values.push(value.clone());
             }
-            saved_values.push(receiver_value.clone());
 
             let s = check_string(receiver_value, receiver_pos, saved_values, env)?;
             if expr_value_is_used {
@@ -6299,11 +6235,10 @@ fn eval_built_in_method_call(
                 arg_values,
             )?;
 
-            let mut saved_values = vec![];
+            let mut saved_values = vec![receiver_value.clone()];
             for value in arg_values.iter().rev() {
                 saved_values.push(value.clone());
             }
-            saved_values.push(receiver_value.clone());
 
             let s = check_string(receiver_value, receiver_pos, saved_values, env)?;
             let lines = s
@@ -6337,21 +6272,19 @@ fn eval_built_in_method_call(
                 arg_values,
             )?;
 
-            let mut saved_values = vec![];
+            let mut saved_values = vec![receiver_value.clone()];
             for value in arg_values.iter().rev() {
                 saved_values.push(value.clone());
             }
-            saved_values.push(receiver_value.clone());
 
             let s_arg = check_string(receiver_value, receiver_pos, saved_values.clone(), env)?;
             let from_arg = match arg_values[0].as_ref() {
                 Value_::Int(i) => i,
                 _ => {
-                    let mut saved_values = vec![];
+                    let mut saved_values = vec![receiver_value.clone()];
                     for value in arg_values.iter().rev() {
                         saved_values.push(value.clone());
                     }
-                    saved_values.push(receiver_value.clone());
 
                     return Err((
                         RestoreValues(saved_values),
@@ -6369,11 +6302,10 @@ fn eval_built_in_method_call(
             let to_arg = match arg_values[1].as_ref() {
                 Value_::Int(i) => i,
                 _ => {
-                    let mut saved_values = vec![];
+                    let mut saved_values = vec![receiver_value.clone()];
                     for value in arg_values.iter().rev() {
                         saved_values.push(value.clone());
                     }
-                    saved_values.push(receiver_value.clone());
 
                     return Err((
                         RestoreValues(saved_values),
@@ -6390,11 +6322,10 @@ fn eval_built_in_method_call(
             };
 
             if *from_arg < 0 {
-                let mut saved_values = vec![];
+                let mut saved_values = vec![receiver_value.clone()];
                 for value in arg_values.iter().rev() {
                     saved_values.push(value.clone());
                 }
-                saved_values.push(receiver_value.clone());
 
                 return Err((
                     RestoreValues(saved_values),
@@ -6410,11 +6341,10 @@ fn eval_built_in_method_call(
             }
 
             if from_arg > to_arg {
-                let mut saved_values = vec![];
+                let mut saved_values = vec![receiver_value.clone()];
                 for value in arg_values.iter().rev() {
                     saved_values.push(value.clone());
                 }
-                saved_values.push(receiver_value.clone());
 
                 let s_len = s_arg.chars().count();
                 return Err((
